@@ -119,6 +119,40 @@ Definition observe (g : cfg) (u : list dname) (s : st) (r : result) (n : nat) : 
                     (dir_of u (s_fs s)) (live_of g (s_fs s) m)
   end.
 
+(** an obstacle: a directory placed at the name of a temporary metadata file (volume.meta.tmp,
+    <disk>.meta.tmp).  While it is there every open of that name fails; nothing else is affected:
+    only encodeToFile uses these names, and only after a successful open.  This is how the
+    histories of the C12 check make an operation FAIL without any tracing tool. *)
+Fixpoint memn (x : name) (l : list name) : bool :=
+  match l with [] => false | y :: t => name_eqb x y || memn x t end.
+Definition blocked_call (b : list name) (c : call) : bool :=
+  match c with
+  | COpenTrunc n | COpenCreatTrunc n | COpenCreat n | COpenRW n => memn n b
+  | _ => false
+  end.
+Fixpoint exec_blocked {A} (b : list name) (p : prog A) (w : fs) : fs * outcome A :=
+  match p with
+  | Ret a => (w, Done a)
+  | Abort e => (w, Aborted e)
+  | Do c k => let '(w1, r) := if blocked_call b c then (w, RErr EIO) else apply_call w c in
+              exec_blocked b (k r) w1
+  end.
+(** one operation while the names in [b] are blocked ([b = []]: [step]) *)
+Definition bstep (g : cfg) (b : list name) (s : st) (o : op) : st * result * nat :=
+  match b with
+  | [] => step g s o
+  | _ => match exec_blocked b (op_prog g (s_mem s) o) (s_fs s) with
+         | (w, Done (om, e, n)) => (mkst w om, result_of e, n)
+         | (w, _) => (mkst w None, ResDied, O)
+         end
+  end.
+
+Fixpoint trace_bops (g : cfg) (u : list dname) (s : st) (os : list op) (bs : list (list name)) : list obs :=
+  match os with
+  | [] => []
+  | o :: t => let '(s1, r, n) := bstep g (hd [] bs) s o in observe g u s1 r n :: trace_bops g u s1 t (tl bs)
+  end.
+
 Fixpoint trace_ops (g : cfg) (u : list dname) (s : st) (os : list op) : list obs :=
   match os with
   | [] => []
@@ -268,9 +302,10 @@ Fixpoint c12_oracle (lo : option obs) (prev : obs) (ts : list op) (os : list obs
 Definition obs0 : obs := mkobs COk 0 None None [] None [] [].
 
 (** ** one T1 correspondence case *)
-Record case := mkcase { c_cfg : cfg; c_univ : list dname; c_ops : list op; c_obs : list obs }.
+Record case := mkcase { c_cfg : cfg; c_univ : list dname; c_ops : list op; c_blk : list (list name); c_obs : list obs }.
 
-Definition case_trace (c : case) : list obs := trace_ops (c_cfg c) (c_univ c) init (c_ops c).
+(** [c_blk]: per operation, the names blocked while it runs (missing entries: none) *)
+Definition case_trace (c : case) : list obs := trace_bops (c_cfg c) (c_univ c) init (c_ops c) (c_blk c).
 
 (** index of the first step at which the oracle fails (for reporting), or None *)
 Fixpoint c12_first_fail (i : nat) (lo : option obs) (prev : obs) (ts : list op) (os : list obs) : option nat :=
@@ -314,12 +349,13 @@ Definition model_oracle (cs : list case) : list bool :=
 (** coverage predicates, evaluated on the model side.
     1 a snapshot / remove / revert succeeded on a chain of >= 2   2 an operation was refused with the replica open
     4 close/crash followed by a successful open                    8 a mark-removed succeeded (actions returned)
-    16 a refused operation with an argument naming an existing chain member or file *)
-Fixpoint flags_from (g : cfg) (s : st) (os : list op) (reopen_pending : bool) : nat :=
+    16 a refused operation with an argument naming an existing chain member or file
+    32 an operation failed (obstacle at a temporary metadata name) with the replica open *)
+Fixpoint flags_from (g : cfg) (s : st) (os : list op) (bs : list (list name)) (reopen_pending : bool) : nat :=
   match os with
   | [] => 0
   | o :: t =>
-      let '(s1, r, n) := step g s o in
+      let '(s1, r, n) := bstep g (hd [] bs) s o in
       let opened := match s_mem s with Some _ => true | None => false end in
       let f1 := match o, r with
                 | OSnap _ _ _, ResOk | ORemove _, ResOk | ORevert _ _, ResOk =>
@@ -329,9 +365,10 @@ Fixpoint flags_from (g : cfg) (s : st) (os : list op) (reopen_pending : bool) : 
       let f4 := match o, r with OOpen, ResOk => if reopen_pending then 4 else 0 | _, _ => 0 end in
       let f8 := match o, r with OPrep _, ResOk => if Nat.leb 1 n then 8 else 0 | _, _ => 0 end in
       let pend := match o with OClose | OCrash | OCrashIn _ _ => opened || reopen_pending | OOpen => false | _ => reopen_pending end in
-      Nat.lor (Nat.lor (Nat.lor f1 f2) (Nat.lor f4 f8)) (flags_from g s1 t pend)
+      let f32 := match hd [] bs, r with _ :: _, ResFailed => if opened then 32 else 0 | _, _ => 0 end in
+      Nat.lor (Nat.lor (Nat.lor f1 f2) (Nat.lor (Nat.lor f4 f8) f32)) (flags_from g s1 t (tl bs) pend)
   end.
-Definition case_flags (c : case) : nat := flags_from (c_cfg c) init (c_ops c) false.
+Definition case_flags (c : case) : nat := flags_from (c_cfg c) init (c_ops c) (c_blk c) false.
 Definition coverage (cs : list case) : list nat := map case_flags cs.
 
 (** ** T1v: the operation under test as a sequence of system calls *)
@@ -516,6 +553,46 @@ Definition oracle_only (ipre ipost : obs) (xs : list vrun) : list bool :=
                 | None => c08_kill_ok ipre ipost (vr_open x)
                 | Some _ => c08_fail_ok ipre ipost (vr_res x) (vr_open x)
                 end) xs.
+
+(** ** a faulty run that goes on.  After the operation with the failing call has returned, the same
+    process observes its memory, performs a Close (a metadata update from memory that succeeds),
+    and a restarted process opens the directory.
+    Model: (result of the operation, memory + directory when it returned, result of Close,
+    directory after Close, observation of the restarted process). *)
+Definition vic_cont (v : vcase) (fail_at : nat * errno) : rclass * obs * rclass * obs * obs :=
+  let g := vc_cfg v in
+  let u := vc_univ v in
+  let '(w, _, o) := exec (vic_prog v) (s_fs (vic_state v)) 0 None (Some fail_at) in
+  match o with
+  | Done (om, r, n) =>
+      let s := mkst w om in
+      let '(s2, r2, _) := step g s OClose in
+      let s3 := mkst (s_fs s2) None in
+      let '(s4, r4, n4) := step g s3 OOpen in
+      (out_class o, observe g u s (result_of r) n, class_of r2, observe g u s3 ResOk 0, observe g u s4 r4 n4)
+  | _ =>
+      let s := mkst w None in
+      (CDied, observe g u s ResDied 0, CDied, observe g u s ResOk 0, observe g u s ResDied 0)
+  end.
+
+(** one observed run of that kind: call index, errno, result, memory + directory when the
+    operation returned, result of Close, directory after Close, reopen observation *)
+Record vcrun := mkvcrun { vk_at : nat; vk_err : errno; vk_res : rclass; vk_mem : obs; vk_cres : rclass;
+                          vk_dir : obs; vk_open : obs }.
+
+(** the oracle on the implementation's observations: the Close of a process that goes on succeeds
+    (or the replica was not open), and what a restarted process then finds is the old or the new
+    view — the new one when the operation had returned success *)
+Definition c08_cont_ok (pre post : obs) (x : vcrun) : bool :=
+  rclass_eqb (vk_cres x) COk && c08_fail_ok pre post (vk_res x) (vk_open x).
+
+(** per run: (index, memory diff field, Close result agrees, directory diff, reopen diff, oracle) *)
+Definition check_vcrun (v : vcase) (ipre ipost : obs) (x : vcrun) : nat * nat * bool * nat * nat * bool :=
+  let '(mr, mm, mc, md, mo) := vic_cont v (vk_at x, vk_err x) in
+  (vk_at x, obs_diff mm (vk_mem x), rclass_eqb mc (vk_cres x) && rclass_eqb mr (vk_res x),
+   obs_diff md (vk_dir x), obs_diff mo (vk_open x), c08_cont_ok ipre ipost x).
+Definition check_vconts (v : vcase) (ipre ipost : obs) (xs : list vcrun) := map (check_vcrun v ipre ipost) xs.
+Definition cont_oracle_only (ipre ipost : obs) (xs : list vcrun) : list bool := map (c08_cont_ok ipre ipost) xs.
 
 (** model-only exploration: for every call index the side of a kill and, per errno, result class and side *)
 Definition vic_kill_sides (v : vcase) : list nat :=
